@@ -196,7 +196,8 @@ Qed.
 
 (* the target: the rule's path in the C12 fragment, without modifier and source data (as in C13_rule).
    The == clause carries the side conditions of the reflexivity of == (as in C13_rule_eq): the path is == to itself
-   (the computable test C11PathProof.path_self_eq; it fails e.g. for a NaN label) and the from-types of the casts are
+   (the computable test C11PathProof.path_self_eq; in the model it fails only for ill-formed values, e.g. a label
+   mapping with a repeated key, which is not a Python object: C13P_counterexample_self_eq) and the from-types of the casts are
    distinct (they are the keys of a Python dict: the model keeps a list). *)
 Theorem C13P_rule_roundtrip : forall st sts t casts g r,
   path_in_c12 st = true -> st_mods st = [] -> st_src st = None ->
@@ -528,6 +529,20 @@ Example C13P_modified_rule_path_refused :
   rjson (c13p_term {| pt_parts := [PtPrim (VStr "items")]; pt_mods := ["length"]; pt_src := None |} exp_args exp_tree []) false
   = Err ValueError.
 Proof. vm_compute. reflexivity. Qed.
+
+(* (model only) why the == clause has the side condition path_self_eq: a label that is a mapping with a repeated key (no
+   Python dict is like that) is in path_in_c12, every other clause holds, but the path -- hence the rule -- is not ==
+   to itself.  The side condition casts_wf is C13's (C13_counterexample_duplicate_cast_keys). *)
+Example C13P_counterexample_self_eq :
+  let st := {| st_parts := [SPrim (VStr "items"); STList None None None (Some (VDict [(VStr "a", VInt 1); (VStr "a", VInt 2)]))];
+               st_mods := []; st_src := None |} in
+  path_in_c12 st = true /\ path_self_eq (spathterm_term st) = false /\
+  rmap (fun x => match x with (_, pure, eq, t1, t2) => (pure, eq, t1, t2) end)
+       (rtrip (c13p_term (spathterm_term st) exp_args exp_tree [(TStr, CastStrInt)]) true exp_doc) =
+  Ok (true, false,
+      Ok (false, true, 1%nat, VDict [(VStr "limit", VInt 5); (VStr "limits", VList [VInt 1; VInt 9]); (VStr "items", VList [VInt 3; VInt 7])]),
+      Ok (false, true, 1%nat, VDict [(VStr "limit", VInt 5); (VStr "limits", VList [VInt 1; VInt 9]); (VStr "items", VList [VInt 3; VInt 7])])).
+Proof. vm_compute. repeat split. Qed.
 
 Print Assumptions C13P_rule_roundtrip_gen.
 Print Assumptions C13P_rule_roundtrip.
